@@ -175,6 +175,7 @@ def int_kernel(ck, pkg, kind, r, m, tier):
             if binary:
                 base.append('(assert (<= %s %d))' % (lin_smt(Bv), m - 1))
             canon = '(<= %s %d)' % (lin_smt(O), m - 1)
+            lia_q = ck.extra.setdefault('_lia_q', {}).setdefault((pkg, kind), [])
             if kind in ('add', 'addself', 'sub', 'subself', 'opp'):
                 if kind == 'add':
                     e = lin_add(A, Bv)
@@ -189,6 +190,7 @@ def int_kernel(ck, pkg, kind, r, m, tier):
                 goal = '(and %s (or (= %s %s) (= %s %s) (= %s %s)))' % (canon, lin_smt(O), lin_smt(e), lin_smt(O), lin_smt(lin_add(e, {1: m})),
                                                                        lin_smt(O), lin_smt(lin_add(e, {1: -m})))
                 hint = 'no hint needed'
+                lia_q.append('\n'.join(base) + '\n(assert (not %s))' % goal)
             else:
                 if kind in ('mul', 'mulself', 'square'):
                     T = {}
@@ -205,6 +207,9 @@ def int_kernel(ck, pkg, kind, r, m, tier):
                 else:
                     T = lin_scale(A, R * R % m)
                 target = lin_add(lin_scale(O, R), T, -1)
+                if not enc.P:
+                    # no symbolic product: the integer encoding is EXACT, so a model of "encoding and not contract" is a real input (witness search only)
+                    lia_q.append('\n'.join(base) + '\n(assert (not (and %s (= (mod %s %d) 0))))' % (canon, lin_smt(target), m))
                 mu, residue, eqs = certificate(enc, target, m, allextra)
                 rv = [v for v in residue if v != 1]
                 wide = [v for v in rv if enc.rng[v][1] - enc.rng[v][0] > 3]
@@ -302,6 +307,21 @@ def find_kernel_cex(ck, pkg, kind, r, m, outs):
                 return
             ck.inconclusive.append('kernel %s.%s: DAG evaluation disagrees with reference but replay passes (translator problem)' % (pkg, kind))
             return
+    # stage 1.5: kernels without symbolic products (FromMontgomery, ToMontgomery, Add, Sub, Opp) have an exact linear-integer encoding:
+    # a model of "encoding and not contract" is a real input
+    for qi, q in enumerate(ck.extra.get('_lia_q', {}).get((pkg, kind), [])):
+        names = ['v_a%d' % i for i in range(4)] + (['v_b%d' % i for i in range(4)] if '(declare-const v_b0 ' in q else [])
+        mm, slv = smt.get_model(q, names, timeout=60 if ck.tier == 'quick' else 900)
+        ck.record('K.%s.%s.lia%d' % (pkg, kind, qi), 'witness search in the exact linear-integer encoding: %s' % ('model found by ' + str(slv) if mm else 'no model within the time limit'),
+                  'sat' if mm else 'unknown', slv, 0.0, 'sat' if mm else 'unknown', sample=q[-400:])
+        if mm:
+            a = unlimbs([mm.get('v_a%d' % i, 0) for i in range(4)])
+            b = unlimbs([mm.get('v_b%d' % i, 0) for i in range(4)])
+            path = ck.save_replay({'property': ck.pid, 'pkg': pkg, 'cases': [{'kind': 'kernel', 'op': kind, 'a': '%064x' % a, 'b': '%064x' % b}]})
+            ok, out = core.go_test(path, pkg=pkg)
+            if not ok and 'MISMATCH' in out:
+                ck.violation('kernel:%s.%s' % (pkg, kind), 'internal/%s kernel %s violates its contract: %s' % (pkg, kind, [l.strip() for l in out.splitlines() if 'MISMATCH' in l][:1]), path)
+                return
     # stage 2: differential search in QF_BV against the reference copy of the kernel (harness/<pkg>_refkernels.go, the pinned
     # Fiat code, itself proved against the contract): the solver is asked for inputs on which the two differ
     DK = {'mul': 0, 'mulself': 0, 'square': 1, 'add': 2, 'addself': 2, 'sub': 3, 'subself': 3, 'opp': 4, 'from': 5, 'to': 6}
